@@ -16,6 +16,8 @@ namespace
         }
         sim::RunResult execute(const sim::Plan& p) override
         {
+            if (p.get("mode") == "exitleak")
+                return hs::run_exit_leak(p);
             hs::Interp in;
             return in.run(p);
         }
